@@ -43,7 +43,13 @@ SITE = {
     'KF-NEWLINE': 'wcmatch/glob.py:601; wcmatch/_wcparse.py:222-223',
     'KF-PARTPREFIX': 'wcmatch/glob.py:289; wcmatch/_wcparse.py:1645-1662',
     'KF-D16': 'wcmatch/glob.py:458,468',
+    'KF-G3': 'wcmatch/_wcmatch.py:106-107',
 }
+
+
+def _crosses_link(root: str, q: str) -> bool:
+    comps = q.split('/')
+    return any(os.path.islink(os.path.join(root, *comps[:j])) and os.path.isdir(os.path.join(root, *comps[:j])) for j in range(1, len(comps)))
 
 
 def _hist(sr, k: str) -> None:
@@ -240,7 +246,7 @@ def _match_vs_rglob(ck, sr, G, P, W, root, tree, ents, pat, fl) -> None:
         return
     raw = None
     fixed = None
-    for q in ents[1:]:
+    for q in ents[1:] + K.entries_through_links(root, ents):
         for cls in (P.Path, P.PurePosixPath):
             m = K.outcome(lambda: cls(q).match(pat, flags=fl | P.REALPATH))
             if m[0] not in ('ok', 'err'):
@@ -269,6 +275,12 @@ def _match_vs_rglob(ck, sr, G, P, W, root, tree, ents, pat, fl) -> None:
                 kid = 'KF-PARTPREFIX'       # a part that can match '' : rglob and/or match accept any name
             elif m[1] and not member and fl & P.NODIR and W.RE_WIN_NO_DIR[0].match(q) and not W.RE_NO_DIR[0].match(q):
                 kid = 'KF-D16'              # NODIR's (Windows) no-directory regex drops names ending in a backslash
+            elif m[1] and not member and _crosses_link(root, q) and K.sig_has_gstar_segment(W, P, pat, fl):
+                # the implicit `**/` of match() plus a written globstar = two `**` groups: _fs_match lstat-s the
+                # pieces of the second group under the wrong directory and misses the symlinked directory (G3)
+                kid = 'KF-G3'
+            elif not m[1] and member and truth is False and K.sig_first_gstar(W, P, pat, fl):
+                kid = 'KF-RGLOBSTAR'        # rglob yields q although glob('**/'+p) does not: the unmerged second `**` acts as a name matcher
             elif m[1] and not member and K.sig_D6(W, P, pat, fl, q):
                 kid = 'KF-D6'
             elif m[1] and not member and K.sig_D8(W, P, pat, fl, q):
